@@ -63,6 +63,12 @@ Print Assumptions C20_dm_path_refuted.
 Theorem C20_swagger_rest_refuted : run no_swagger_rest m_rpc true (fuel_bound m_rpc) (CSwagger None) = Panic SSwaggerSplit.
 Proof. exact swagger_rest_refuted. Qed.
 Print Assumptions C20_swagger_rest_refuted.
+Theorem C20_sw_param_schema_refuted : run no_sw_param_schema m_ref_param true (fuel_bound m_ref_param) (CSwagger None) = Panic SSwaggerParam.
+Proof. exact sw_param_schema_refuted. Qed.
+Print Assumptions C20_sw_param_schema_refuted.
+Theorem C20_oa3_ret_split_refuted : run no_oa3_ret_split m_ret_nospace true (fuel_bound m_ret_nospace) (COpenapi3 (Some 1%N)) = Panic SOa3RetSplit.
+Proof. exact oa3_ret_split_refuted. Qed.
+Print Assumptions C20_oa3_ret_split_refuted.
 Theorem C20_db_path_refuted : run no_db_path m_short_ref true (fuel_bound m_short_ref) (CDbCreate [1%N]) = Panic SDbPath.
 Proof. exact db_path_refuted. Qed.
 Print Assumptions C20_db_path_refuted.
